@@ -211,8 +211,20 @@ class Environment:
         # If event has an exception, run its callback before handle the
         # exception. In this way, the exception could be possibly be handled by
         # event's callback.
+        stop = None
         for callback in callbacks:
-            callback(event)
+            if callback == StopSimulation.callback:
+                # run(until=event): remember the stop and let the remaining
+                # waiters of this event run first; raising from inside the
+                # loop would drop them for good.
+                try:
+                    callback(event)
+                except BaseException as exc:
+                    stop = exc
+            else:
+                callback(event)
+        if stop is not None:
+            raise stop
 
         if not event._ok and not hasattr(event, '_defused'):
             # The event has failed and has not been defused. Crash the
